@@ -53,6 +53,7 @@ type c14Sess struct {
 	acquired  bool // Lock returned an id
 	gone      bool // Lock returned an error (cancel branch)
 	expired   bool // `expire` already used
+	released  bool // C28: the caller's own unlock / TTL took it out of the queue
 	hold      chan struct{}
 }
 
@@ -61,6 +62,7 @@ type c14World struct {
 	mu       sync.Mutex
 	lk       lock.Lock
 	events   chan c14Event
+	backlog  []c14Event
 	known    map[string]bool          // ids enqueued in this case
 	holdNext bool                     // stop the next caller at lock.select
 	holds    map[string]chan struct{} // id → release channel of a caller held at lock.select
@@ -70,6 +72,21 @@ type c14World struct {
 	byID     map[string]*c14Sess
 	wg       sync.WaitGroup
 	timeout  time.Duration
+	broken   bool // a step timed out: the rest of the case is not executed
+}
+
+// c14BrokenCases counts cases abandoned after a timeout; past a small budget the run stops
+// executing ops (every further reply is `aborted`) so that a defective build cannot stall the check.
+var c14BrokenCases int
+
+func (w *c14World) gate(op string) (string, bool) {
+	if c14BrokenCases > 4 {
+		return "aborted", true
+	}
+	if w.broken && op != "case" {
+		return "broken", true
+	}
+	return "", false
 }
 
 func c14NewWorld(lk lock.Lock) *c14World {
@@ -120,8 +137,16 @@ func (w *c14World) handler(name string, args ...any) {
 	}
 }
 
-// wait returns the next event accepted by want; stale `rm found=false` / `ttl` events are skipped.
+// wait returns the first not yet consumed event accepted by want. Events arrive from several
+// goroutines in no fixed order (a woken waiter's `acq` can overtake the remover's `rm`), so
+// events that are not wanted now stay in the backlog for later waits of the same case.
 func (w *c14World) wait(want func(c14Event) bool) (c14Event, bool) {
+	for i, ev := range w.backlog {
+		if want(ev) {
+			w.backlog = append(w.backlog[:i], w.backlog[i+1:]...)
+			return ev, true
+		}
+	}
 	deadline := time.After(w.timeout)
 	for {
 		select {
@@ -132,7 +157,12 @@ func (w *c14World) wait(want func(c14Event) bool) (c14Event, bool) {
 			if ev.name == "panic" {
 				return ev, false
 			}
+			w.backlog = append(w.backlog, ev)
 		case <-deadline:
+			if !w.broken {
+				w.broken = true
+				c14BrokenCases++
+			}
 			return c14Event{name: "timeout"}, false
 		}
 	}
@@ -153,6 +183,10 @@ func (w *c14World) waitTTL(id string) (time.Time, bool) {
 			return at, true
 		}
 		if time.Now().After(deadline) {
+			if !w.broken {
+				w.broken = true
+				c14BrokenCases++
+			}
 			return time.Time{}, false
 		}
 		time.Sleep(200 * time.Microsecond)
@@ -450,6 +484,10 @@ func runC14(in *bufio.Scanner, out *bufio.Writer) {
 		f := strings.Fields(line)
 		if len(f) == 0 {
 			fmt.Fprintln(out, "bad-op")
+			continue
+		}
+		if r, stop := w.gate(f[0]); stop {
+			fmt.Fprintln(out, r)
 			continue
 		}
 		switch f[0] {
